@@ -1340,6 +1340,11 @@ _vbi_cache_get_page		(vbi_cache *		ca,
 /**
  * @internal
  * For vbi_search.
+ *
+ * @returns
+ * 0 if the cache is empty, the non-zero value returned by the
+ * callback to end the walk, or -1 if all pages have been visited
+ * without the callback ending the walk.
  */
 int
 _vbi_cache_foreach_page		(vbi_cache *		ca,
@@ -1407,6 +1412,9 @@ _vbi_cache_foreach_page		(vbi_cache *		ca,
 					if (++n_wraps >= 2)
 						return 0;
 
+					if (wrapped)
+						return -1; /* all pages visited */
+
 					pgno = 0x8FF;
 					ps = cache_network_page_stat(cn, pgno);
 					wrapped = TRUE;
@@ -1420,6 +1428,9 @@ _vbi_cache_foreach_page		(vbi_cache *		ca,
 				if (pgno > 0x8FF) {
 					if (++n_wraps >= 2)
 						return 0;
+
+					if (wrapped)
+						return -1; /* all pages visited */
 
 					pgno = 0x100;
 					ps = cache_network_page_stat(cn, pgno);
